@@ -3,4 +3,14 @@ EXTENDS TreeLine, Json, IOUtils
 DefSeq == ndJsonDeserialize(IOEnv.DEFS)
 MCDefs == RangeOf(DefSeq)
 TEmit == PrintT(<<"REPLAY", ToJson([def |-> def.id, line |-> line, env |-> env, outside |-> st.root.outside, expect |-> TOut])>>)
+\* C14 inside such a command: the bounds of the command's own level; names of the enclosing level may be offered too
+TViable == IF st.k = 0 THEN Viable(st.root) ELSE (Viable(st.root) /\ GViable(Sub(def, st.k), st.g))
+TPartials == IF st.k = 0 THEN Partials(RootView(def))
+             ELSE {p \in GPartials(Sub(def, st.k)) : ~(p.k = "short" /\ Foreign(st.root, p.s)) /\ ~(p.k = "long" /\ ForeignLong(st.root, p.cs))}
+TMust(p) == IF st.k = 0 THEN MustOffer(st.root, p) ELSE GMustOffer(Sub(def, st.k), st.g, p)
+TMay(p)  == IF st.k = 0 THEN MayOffer(st.root, p) ELSE GMayOffer(Sub(def, st.k), st.g, p) \cup MayOffer(st.root, p)
+TSandwich == \A p \in TPartials : TMust(p) \subseteq TMay(p)
+TCEmit == TViable => PrintT(<<"REPLAY", ToJson([def |-> def.id, line |-> line, env |-> env, outside |-> FALSE, acmds |-> <<>>,
+             comps |-> {[p |-> PartialText(p), must |-> TMust(p), may |-> TMay(p), pending |-> (IF st.k = 0 THEN st.root.pending # "" ELSE st.g.pending # "")]
+                        : p \in TPartials}])>>)
 =============================================================================
